@@ -240,3 +240,44 @@ func lower(s string) string {
 	}
 	return string(b)
 }
+
+// F8 (C20/C09): a schema that is an array (or map) of itself overflows the stack in Schema().
+func TestF8_SelfContainingArray(t *testing.T) {
+	for name, def := range map[string]string{
+		"array": `{"type":"array","items":{"$ref":"#/definitions/A"}}`,
+		"map":   `{"type":"object","additionalProperties":{"$ref":"#/definitions/A"}}`,
+	} {
+		sw := load(t, `{"swagger":"2.0","paths":{},"definitions":{"A":`+def+`}}`)
+		a := sw.Definitions["A"]
+		done := make(chan struct{})
+		go func() {
+			defer close(done)
+			asch, err := analysis.Schema(analysis.SchemaOpts{Schema: &a, Root: sw, BasePath: "/tmp/x.json"})
+			if err != nil {
+				t.Errorf("%s: %v", name, err)
+				return
+			}
+			if asch.IsSimpleSchema != (asch.IsKnownType || asch.IsSimpleArray || asch.IsSimpleMap) {
+				t.Errorf("%s: incoherent flags %+v", name, asch)
+			}
+			if name == "array" && !asch.IsArray || name == "map" && !asch.IsMap {
+				t.Errorf("%s: wrong classification %+v", name, asch)
+			}
+		}()
+		select {
+		case <-done:
+		case <-time.After(10 * time.Second):
+			t.Fatalf("%s: Schema() does not terminate", name)
+		}
+		// a $ref to it classifies like it
+		ref := spec.RefSchema("#/definitions/A")
+		r1, err := analysis.Schema(analysis.SchemaOpts{Schema: ref, Root: sw, BasePath: "/tmp/x.json"})
+		if err != nil {
+			t.Fatalf("%s: %v", name, err)
+		}
+		r2, _ := analysis.Schema(analysis.SchemaOpts{Schema: &a, Root: sw, BasePath: "/tmp/x.json"})
+		if r1.IsArray != r2.IsArray || r1.IsMap != r2.IsMap || r1.IsSimpleSchema != r2.IsSimpleSchema || r1.IsSimpleArray != r2.IsSimpleArray || r1.IsSimpleMap != r2.IsSimpleMap {
+			t.Errorf("%s: $ref classifies differently: %+v vs %+v", name, r1, r2)
+		}
+	}
+}
